@@ -300,3 +300,174 @@ Proof.
   rewrite (ll_cycles works fuel tm0 (clear_log w0) _ tock cs tmf wf Hi ltac:(lia) Cy k c Hk).
   lia.
 Qed.
+
+(* ------------------------------------------------------------------ sessions *)
+
+Lemma do_real_run : forall fuel tock (tm : ztimer) (w : zworld) works out tmf wf,
+  world_ok w -> Forall step_ok works ->
+  do_real VSync fuel tock tm w works = Some (out, tmf, wf) ->
+  world_ok wf /\ not_early_run tock out /\ lossless_run tock out.
+Proof.
+  intros fuel tock tm w works out tmf wf Hw Hs E.
+  destruct (do_real_not_early _ _ _ _ _ _ _ _ Hw Hs E) as [Hwf [Hk [He Hl]]].
+  split; [assumption|]. split.
+  - split; [assumption|]. rewrite Hl. exact He.
+  - exact (do_real_lossless _ _ _ _ _ _ _ _ E).
+Qed.
+
+Lemma session_runs : forall runs fuel tock (tm : ztimer) (w : zworld) outs,
+  world_ok w -> Forall run_ok runs ->
+  session VSync fuel tock tm w runs = Some outs ->
+  Forall2 (fun t o => not_early_run t o /\ lossless_run t o) (eff_tocks tock runs) outs.
+Proof.
+  induction runs as [|r rest IH]; intros fuel tock tm w outs Hw Hr E.
+  - cbn in E. inversion E; subst. constructor.
+  - cbn [session] in E. inversion Hr as [|? ? [Hpre Hworks] Hrest]; subst.
+    set (t := match i_tock r with Some x => x | None => tock end) in *.
+    destruct (do_real VSync fuel t tm (advance w (i_pre r)) (i_works r)) as [[[o tm1] w1]|] eqn:D; [|discriminate].
+    destruct (session VSync fuel t tm1 w1 rest) as [os|] eqn:S; [|discriminate].
+    inversion E; subst. clear E.
+    destruct (do_real_run _ _ _ _ _ _ _ _ (advance_ok _ _ Hw) Hworks D) as [Hw1 [NE LL]].
+    cbn [eff_tocks]. fold t. constructor; [split; assumption|].
+    exact (IH _ _ _ _ _ Hw1 Hrest S).
+Qed.
+
+Theorem play_runs : forall fuel t0 tock0 rs os runs outs,
+  Forall step_ok rs -> Forall slp_ok os -> Forall run_ok runs ->
+  play VSync fuel t0 tock0 rs os runs = Some outs ->
+  Forall2 (fun t o => not_early_run t o /\ lossless_run t o) (eff_tocks tock0 runs) outs.
+Proof.
+  intros fuel t0 tock0 rs os runs outs Hr Ho Hruns E. unfold play in E.
+  set (w := {| now := t0; mono := tzero; reads := rs; overs := os; log := [] |}) in *.
+  assert (Hw : world_ok w) by (split; assumption).
+  unfold timer_init in E.
+  destruct (read w) as [r1 w1] eqn:R1. destruct (read w1) as [r2 w2] eqn:R2.
+  destruct (read_facts _ _ _ Hw R1) as [Hw1 _]. destruct (read_facts _ _ _ Hw1 R2) as [Hw2 _].
+  exact (session_runs _ _ _ _ _ _ Hw2 Hruns E).
+Qed.
+
+(* ------------------------------------------------------------------ the wait always ends *)
+
+Lemma bad_reads_cons : forall p j rs,
+  (bad_reads rs <= bad_reads ((p, j) :: rs))%nat /\
+  (0 < j -> (S (bad_reads rs) <= bad_reads ((p, j) :: rs))%nat) /\
+  (j <= 0 -> bad_reads ((p, j) :: rs) = bad_reads rs).
+Proof.
+  intros p j rs. unfold bad_reads. cbn [filter snd]. destruct (0 <? j) eqn:E; cbn [length]; rsplit; intros; lia.
+Qed.
+
+(* a reading is either not below the clock before it, or it used up one backward jump of the script *)
+Lemma read_cases : forall (w w' : zworld) r,
+  world_ok w -> read w = (r, w') ->
+  overs w' = overs w /\ r = now w' /\ (bad w' <= bad w)%nat /\
+  (now w <= now w' \/ (S (bad w') <= bad w)%nat).
+Proof.
+  intros w w' r [Hr Ho] E. unfold read in E. destruct (reads w) as [|[p j] rs] eqn:R.
+  - inversion E; subst. unfold bad. cbn [now reads overs]. rewrite R. rsplit; try reflexivity; try lia.
+  - inversion Hr as [|? ? [Hp Hj] Hrs]; subst. inversion E; subst. unfold advance, bad.
+    cbn [now mono reads overs log fst snd] in *. tz. rewrite R.
+    destruct (bad_reads_cons p j rs) as [B1 [B2 B3]].
+    rsplit; try reflexivity; try lia.
+    destruct (Z.eq_dec j 0) as [J|J]; [left; lia|right; specialize (B2 ltac:(lia)); lia].
+Qed.
+
+Lemma sleep_cases : forall (w : zworld) d,
+  world_ok w -> 0 <= d ->
+  (bad (sleep w d) <= bad w)%nat /\
+  ((now w + d <= now (sleep w d)) \/ (S (bad (sleep w d)) <= bad w)%nat).
+Proof.
+  intros w d [Hr Ho] Hd. unfold sleep, bad. destruct (overs w) as [|[o|e] os] eqn:O.
+  - cbn [now reads overs]. tz. unfold bad_overs. cbn. split; [lia|left; lia].
+  - inversion Ho as [|? ? Hoo Hos]; subst. cbn in Hoo. cbn [now reads overs]. tz.
+    unfold bad_overs. cbn [filter length]. split; [lia|left; lia].
+  - cbn [now reads overs]. unfold bad_overs. cbn [filter length]. split; [lia|right; lia].
+Qed.
+
+Lemma advance_bad : forall (w : zworld) s, bad (advance w s) = bad w.
+Proof. intros w s. reflexivity. Qed.
+
+Lemma latest_cases : forall (tm tm' : ztimer) (w w' : zworld) l,
+  world_ok w -> latest tm w = (tm', l, w') ->
+  world_ok w' /\ l = now w' /\ t_last tm' = now w' /\
+  t_stop tm' = t_stop tm + Z.min 0 (now w' - t_last tm) /\
+  (bad w' <= bad w)%nat /\ (now w <= now w' \/ (S (bad w') <= bad w)%nat).
+Proof.
+  intros tm tm' w w' l Hw E.
+  destruct (latest_spec _ _ _ _ _ E) as [r [R [L1 [L2 [L3 _]]]]].
+  destruct (read_facts _ _ _ Hw R) as [Hw' _].
+  destruct (read_cases _ _ _ Hw R) as [_ [Rn [B C]]]. subst l. subst r.
+  rsplit; try assumption; try reflexivity.
+Qed.
+
+Definition ready (tm : ztimer) (w : zworld) : Prop := t_stop tm <= now w /\ t_last tm <= now w.
+
+Lemma wait_ends : forall fuel tm w acc,
+  world_ok w ->
+  (ready tm w /\ (2 * bad w < fuel)%nat) \/ (2 * bad w + 1 < fuel)%nat ->
+  wait fuel tm w acc <> None.
+Proof.
+  induction fuel as [|f IH]; intros tm w acc Hw H; [destruct H as [[_ H]|H]; lia|].
+  cbn [wait]. unfold expired.
+  destruct (latest tm w) as [[tm1 l1] w1] eqn:L1.
+  destruct (latest_cases _ _ _ _ _ Hw L1) as [Hw1 [E1 [La1 [St1 [B1 C1]]]]].
+  tz. destruct (t_stop tm1 <=? l1) eqn:X; [discriminate|].
+  assert (F : (2 * bad w1 < f)%nat).
+  { destruct H as [[[R1 R2] H]|H]; [|lia]. destruct C1 as [C1|C1]; lia. }
+  unfold remaining. destruct (latest tm1 w1) as [[tm2 l2] w2] eqn:L2.
+  destruct (latest_cases _ _ _ _ _ Hw1 L2) as [Hw2 [E2 [La2 [St2 [B2 C2]]]]].
+  pose proof (max0_nonneg (t_stop tm1 - l2)) as Hd.
+  assert (Hd2 : t_stop tm1 - l2 <= max0 (t_stop tm1 - l2)).
+  { unfold max0. tz. destruct (0 <? t_stop tm1 - l2) eqn:Y; lia. }
+  destruct (sleep_facts w2 _ Hw2 Hd) as [Hw3 _].
+  destruct (sleep_cases w2 _ Hw2 Hd) as [B3 C3].
+  apply IH; [assumption|].
+  destruct C3 as [C3|C3].
+  - left. split; [split; lia|lia].
+  - right. lia.
+Qed.
+
+Lemma wait_world : forall fuel tm w acc tm' w' sl,
+  world_ok w -> wait fuel tm w acc = Some (tm', w', sl) -> world_ok w' /\ (bad w' <= bad w)%nat.
+Proof.
+  induction fuel as [|f IH]; intros tm w acc tm' w' sl Hw E; [discriminate|].
+  cbn [wait] in E. unfold expired in E.
+  destruct (latest tm w) as [[tm1 l1] w1] eqn:L1.
+  destruct (latest_cases _ _ _ _ _ Hw L1) as [Hw1 [_ [_ [_ [B1 _]]]]].
+  destruct (tleb (t_stop tm1) l1).
+  - inversion E; subst. split; assumption.
+  - unfold remaining in E. destruct (latest tm1 w1) as [[tm2 l2] w2] eqn:L2.
+    destruct (latest_cases _ _ _ _ _ Hw1 L2) as [Hw2 [_ [_ [_ [B2 _]]]]].
+    pose proof (max0_nonneg (t_stop tm1 - l2)) as Hd. tz.
+    destruct (sleep_facts w2 _ Hw2 Hd) as [Hw3 _].
+    destruct (sleep_cases w2 _ Hw2 Hd) as [B3 _].
+    destruct (IH _ _ _ _ _ _ Hw3 E) as [R1 R2]. split; [assumption|lia].
+Qed.
+
+Lemma cycles_ends : forall works fuel tm w,
+  world_ok w -> Forall step_ok works -> (2 * bad w + 1 < fuel)%nat ->
+  cycles fuel tm w works <> None.
+Proof.
+  induction works as [|wk rest IH]; intros fuel tm w Hw Hs F; [discriminate|].
+  cbn [cycles]. inversion Hs as [|? ? Hwk Hrest]; subst.
+  pose proof (advance_ok w wk Hw) as Hwa.
+  destruct (wait fuel tm (advance w wk) []) as [[[tm1 w1] sl]|] eqn:W.
+  - destruct (wait_world _ _ _ _ _ _ _ Hwa W) as [Hw1 B1]. rewrite advance_bad in B1.
+    specialize (IH fuel (restart tm1) w1 Hw1 Hrest ltac:(lia)).
+    destruct (cycles fuel (restart tm1) w1 rest) as [[[cs tmf] wf]|]; [discriminate|contradiction].
+  - exfalso. apply (wait_ends fuel tm (advance w wk) [] Hwa); [right; rewrite advance_bad; lia|exact W].
+Qed.
+
+Theorem do_real_ends : forall fuel tock (tm : ztimer) (w : zworld) works,
+  world_ok w -> Forall step_ok works -> (2 * bad w + 1 < fuel)%nat ->
+  exists out tmf wf, do_real VSync fuel tock tm w works = Some (out, tmf, wf).
+Proof.
+  intros fuel tock tm w works Hw Hs F. unfold do_real.
+  destruct (start_run VSync tock tm w) as [tm0 w0] eqn:S.
+  destruct (start_sync_spec _ _ _ _ _ S) as [r [R _]].
+  destruct (read_facts _ _ _ Hw R) as [Hw0 _]. destruct (read_cases _ _ _ Hw R) as [_ [_ [B _]]].
+  pose proof (cycles_ends works fuel tm0 (clear_log w0) (clear_log_ok _ Hw0) Hs) as C.
+  assert (Bc : bad (clear_log w0) = bad w0) by reflexivity.
+  specialize (C ltac:(lia)).
+  destruct (cycles fuel tm0 (clear_log w0) works) as [[[cs tmf] wf]|]; [|contradiction].
+  eexists _, _, _. reflexivity.
+Qed.
